@@ -121,10 +121,11 @@ theorem runSer_fields (f : SerSt → SerSt) (s : St) (hh : s.halted = false)
     (runSer f s).halted = false ∧ (runSer f s).c.at_ = r.at_ ∧ (runSer f s).buf = r.buf ∧
     (runSer f s).c.packetSize = s.c.packetSize ∧ (runSer f s).c.saved = r.saved ∧
     (runSer f s).c.packetIsOpen = s.c.packetIsOpen ∧ (runSer f s).p = s.p ∧
-    (runSer f s).c.offContent = s.c.offContent ∧ (runSer f s).c.contentSize = s.c.contentSize := by
+    (runSer f s).c.offContent = s.c.offContent ∧ (runSer f s).c.contentSize = s.c.contentSize ∧
+    (runSer f s).c.isTracingEnabled = s.c.isTracingEnabled := by
   unfold runSer installSer
   simp only [h, Bool.false_eq_true, if_false]
-  exact ⟨hh, rfl, rfl, rfl, rfl, rfl, rfl, rfl, rfl⟩
+  exact ⟨hh, rfl, rfl, rfl, rfl, rfl, rfl, rfl, rfl, rfl⟩
 
 section
 variable (cfg : Cfg) (d : DST) (L A : Nat) (oa : List Args)
@@ -157,7 +158,7 @@ theorem openWrite_pinv (args : Args) (hargs : args ∈ openArgsOf oa) (ts : Nat)
   have hr := runSer_fields
     (fun st => serRoot env "pc" d.pcOp args (serRoot env "ph" (DST.phOp cfg) [] st)) (s.setAt 0) hi.nh hpc.1
   simp only at hr
-  obtain ⟨r1, r2, r3, r4, r5, r6, r7, r8, r9⟩ := hr
+  obtain ⟨r1, r2, r3, r4, r5, r6, r7, r8, r9, r10⟩ := hr
   have h2 : PInv d L oa (runSer (fun st => serRoot env "pc" d.pcOp args (serRoot env "ph" (DST.phOp cfg) [] st))
       (s.setAt 0)) := by
     refine ⟨r1, ?_, ?_, ?_, ?_, ?_, ?_, ?_, ?_⟩
@@ -263,21 +264,34 @@ theorem findWrite_src (spec : String → Option WSrc) (n : String) (w : Write) :
         · rw [if_neg hnm] at h
           exact ih h
 
-/-- a write-back keeps the invariant and leaves the packet open -/
-structure PInvO (d : DST) (L : Nat) (oa : List Args) (s : St) : Prop where
+/-- what the write-backs of the closing function keep: the packet is open, the saved offsets are inside the buffer;
+    `P` is any property of the platform state and `E` the value of `is_tracing_enabled` (neither is touched) -/
+structure PInvO (d : DST) (L : Nat) (P : Plat → Prop) (E : Bool) (s : St) : Prop where
   nh : s.halted = false
   len : s.buf.length = L
   pkt : s.c.packetSize = 8 * L
   at_ : s.c.at_ ≤ 8 * L
   sv : SavedOK d.pcOp.members s.c.saved (8 * L)
-  oa : s.p.openArgs = oa
-  sb : ∀ x ∈ s.p.setBufs, x.2 = L
   cz : s.c.contentSize ≤ 8 * L
   isOpen : s.c.packetIsOpen = true
+  pp : P s.p
+  en : s.c.isTracingEnabled = E
+
+/-- what the closing function leaves behind -/
+structure PClosed (L : Nat) (P : Plat → Prop) (E : Bool) (s : St) : Prop where
+  nh : s.halted = false
+  len : s.buf.length = L
+  pkt : s.c.packetSize = 8 * L
+  at_ : s.c.at_ = 8 * L
+  cz : s.c.contentSize ≤ 8 * L
+  isOpen : s.c.packetIsOpen = false
+  pp : P s.p
+  en : s.c.isTracingEnabled = E
 
 include hcfg hsmall in
-theorem writeBack_pinv (env : SerEnv) (name : String) (hskip : ((specPC name).getD .arg).isSkip = true) (v : Int)
-    (s : St) (hi : PInvO d L oa s) : PInvO d L oa (writeBack env d name v s) := by
+theorem writeBack_pinv (P : Plat → Prop) (E : Bool) (env : SerEnv) (name : String)
+    (hskip : ((specPC name).getD .arg).isSkip = true) (v : Int)
+    (s : St) (hi : PInvO d L P E s) : PInvO d L P E (writeBack env d name v s) := by
   unfold writeBack
   split
   · exact hi
@@ -301,7 +315,7 @@ theorem writeBack_pinv (env : SerEnv) (name : String) (hskip : ((specPC name).ge
       rw [← hwb] at hin
       have hr := runSer_fields (fun st => writeBits env w.sc w.oib v st) (s.setAt off) hi.nh hin.1
       simp only at hr
-      obtain ⟨r1, r2, r3, r4, r5, r6, r7, r8, r9⟩ := hr
+      obtain ⟨r1, r2, r3, r4, r5, r6, r7, r8, r9, r10⟩ := hr
       refine ⟨r1, ?_, ?_, ?_, ?_, ?_, ?_, ?_, ?_⟩
       · rw [r3]; exact hin.2.2.2.trans hi.len
       · rw [r4]; exact hi.pkt
@@ -314,55 +328,69 @@ theorem writeBack_pinv (env : SerEnv) (name : String) (hskip : ((specPC name).ge
         show SavedOK _ (writeBits env w.sc w.oib v _).saved _
         rw [writeBits_saved]
         exact hi.sv
-      · rw [r7]; exact hi.oa
-      · rw [r7]; exact hi.sb
       · rw [r9]; exact hi.cz
       · rw [r6]; exact hi.isOpen
+      · rw [r7]; exact hi.pp
+      · rw [r10]; exact hi.en
 
 include hcfg hsmall in
-theorem closeBacks_pinv (ts : Nat) (s : St) (hi : PInvO d L oa s) : PInvO d L oa (closeBacks cfg d ts s) := by
+theorem closeBacks_pinv (P : Plat → Prop) (E : Bool) (ts : Nat) (s : St) (hi : PInvO d L P E s) :
+    PInvO d L P E (closeBacks cfg d ts s) := by
   unfold closeBacks
   simp only
   generalize serEnvOf cfg d 0 ts s.c = env
-  have h1 : PInvO d L oa (if d.feat.tsEnd.isSome = true then writeBack env d "timestamp_end" ts s else s) := by
+  have h1 : PInvO d L P E (if d.feat.tsEnd.isSome = true then writeBack env d "timestamp_end" ts s else s) := by
     split
-    · exact writeBack_pinv cfg d L A oa hcfg hsmall env "timestamp_end" rfl _ s hi
+    · exact writeBack_pinv cfg d L A hcfg hsmall P E env "timestamp_end" rfl _ s hi
     · exact hi
   generalize (if d.feat.tsEnd.isSome = true then writeBack env d "timestamp_end" ts s else s) = s1 at h1
-  have h2 : PInvO d L oa (writeBack env d "content_size" s1.c.contentSize s1) :=
-    writeBack_pinv cfg d L A oa hcfg hsmall env "content_size" rfl _ s1 h1
+  have h2 : PInvO d L P E (writeBack env d "content_size" s1.c.contentSize s1) :=
+    writeBack_pinv cfg d L A hcfg hsmall P E env "content_size" rfl _ s1 h1
   generalize writeBack env d "content_size" s1.c.contentSize s1 = s2 at h2
   split
-  · exact writeBack_pinv cfg d L A oa hcfg hsmall env "events_discarded" rfl _ s2 h2
+  · exact writeBack_pinv cfg d L A hcfg hsmall P E env "events_discarded" rfl _ s2 h2
   · exact h2
 
-theorem closeFinish_pinv (ts : Nat) (saved : Bool) (s : St) (hi : PInvO d L oa s) :
-    PInv d L oa (closeFinish d ts saved s) := by
+theorem closeFinish_closed (P : Plat → Prop) (E : Bool) (ts : Nat) (saved : Bool) (s : St) (hi : PInvO d L P E s) :
+    PClosed L P E (closeFinish d ts saved s) := by
   unfold closeFinish
   split
   · rename_i hh; rw [hi.nh] at hh; exact absurd hh (by simp)
   · simp only
-    have h4 : PSame s (if d.feat.tsEnd.isSome = true then s.ev (.tsWrite "end" ts) else s) := by
+    have h4 : PSame s (if d.feat.tsEnd.isSome = true then s.ev (.tsWrite "end" ts) else s) ∧
+        (if d.feat.tsEnd.isSome = true then s.ev (.tsWrite "end" ts) else s).p = s.p ∧
+        (if d.feat.tsEnd.isSome = true then s.ev (.tsWrite "end" ts) else s).c.isTracingEnabled = s.c.isTracingEnabled := by
       split
-      · exact PSame.ev _ _
-      · exact PSame.refl _
+      · exact ⟨PSame.ev _ _, rfl, rfl⟩
+      · exact ⟨PSame.refl _, rfl, rfl⟩
     generalize (if d.feat.tsEnd.isSome = true then s.ev (.tsWrite "end" ts) else s) = s3 at h4
+    obtain ⟨h4, h4p, h4e⟩ := h4
     have hpk : s3.c.packetSize = 8 * L := h4.pkt.trans hi.pkt
     split
-    · exact ⟨h4.nh.trans hi.nh, h4.len.trans hi.len, hpk, by show s3.c.packetSize ≤ _; rw [hpk]; exact Nat.le_refl _,
-        fun h => by simp at h, h4.oa.trans hi.oa, by show ∀ x ∈ s3.p.setBufs, _; rw [h4.sb]; exact hi.sb,
-        fun h => by simp at h, by show s3.c.contentSize ≤ _; rw [h4.csz]; exact hi.cz⟩
-    · exact ⟨h4.nh.trans hi.nh, h4.len.trans hi.len, hpk, by show s3.c.packetSize ≤ _; rw [hpk]; exact Nat.le_refl _,
-        fun h => by simp at h, h4.oa.trans hi.oa, by show ∀ x ∈ s3.p.setBufs, _; rw [h4.sb]; exact hi.sb,
-        fun h => by simp at h, by show s3.c.contentSize ≤ _; rw [h4.csz]; exact hi.cz⟩
+    · exact ⟨h4.nh.trans hi.nh, h4.len.trans hi.len, hpk, hpk, by show s3.c.contentSize ≤ _; rw [h4.csz]; exact hi.cz,
+        rfl, by show P s3.p; rw [h4p]; exact hi.pp, h4e.trans hi.en⟩
+    · exact ⟨h4.nh.trans hi.nh, h4.len.trans hi.len, hpk, hpk, by show s3.c.contentSize ≤ _; rw [h4.csz]; exact hi.cz,
+        rfl, by show P s3.p; rw [h4p]; exact hi.pp, h4e.trans hi.en⟩
+
+include hcfg hsmall in
+/-- the closing function on an open packet, whatever the platform state -/
+theorem closeWrite_closed (P : Plat → Prop) (E : Bool) (ts : Nat) (saved : Bool) (s : St)
+    (hnh : s.halted = false) (hlen : s.buf.length = L) (hpkt : s.c.packetSize = 8 * L) (hat : s.c.at_ ≤ 8 * L)
+    (hsv : SavedOK d.pcOp.members s.c.saved (8 * L)) (ho : s.c.packetIsOpen = true) (hp : P s.p)
+    (hen : s.c.isTracingEnabled = E) :
+    PClosed L P E (closeWrite cfg d ts saved s) := by
+  unfold closeWrite
+  exact closeFinish_closed d L P E ts saved _
+    (closeBacks_pinv cfg d L A hcfg hsmall P E ts (s.setContentSize s.c.at_)
+      ⟨hnh, hlen, hpkt, hat, hsv, hat, ho, hp, hen⟩)
 
 include hcfg hsmall in
 theorem closeWrite_pinv (ts : Nat) (saved : Bool) (s : St) (hi : PInv d L oa s) (ho : s.c.packetIsOpen = true) :
     PInv d L oa (closeWrite cfg d ts saved s) := by
-  unfold closeWrite
-  exact closeFinish_pinv d L oa ts saved _
-    (closeBacks_pinv cfg d L A oa hcfg hsmall ts (s.setContentSize s.c.at_)
-      ⟨hi.nh, hi.len, hi.pkt, hi.at_, hi.sv ho, hi.oa, hi.sb, hi.at_, ho⟩)
+  have h := closeWrite_closed cfg d L A hcfg hsmall (fun p => p.openArgs = oa ∧ ∀ x ∈ p.setBufs, x.2 = L)
+    s.c.isTracingEnabled ts saved s hi.nh hi.len hi.pkt hi.at_ (hi.sv ho) ho ⟨hi.oa, hi.sb⟩ rfl
+  exact ⟨h.nh, h.len, h.pkt, by rw [h.at_]; exact Nat.le_refl _, fun x => by rw [h.isOpen] at x; simp at x, h.pp.1,
+    h.pp.2, fun x => by rw [h.isOpen] at x; simp at x, h.cz⟩
 
 include hcfg hsmall in
 theorem closeGuarded_pinv (ts : Nat) (s : St) (hi : PInv d L oa s) : PInv d L oa (closeGuarded cfg d ts s) := by
@@ -498,7 +526,7 @@ theorem traceWrite_pinv (e : ERT) (he : e ∈ d.erts) (args : Args) (hargs : Arg
     s.buf.length s.c.packetSize hp.pkt hp.small rfl rfl hp.at_ (recordEndN_ge A d e hok args s.c.at_) hnw hfit
   have hr := runSer_fields (serRecord (serEnvOf cfg d e.id s.c.curLastEventTs s.c) d e args) s hi.nh hin.1
   simp only at hr
-  obtain ⟨r1, r2, r3, r4, r5, r6, r7, r8, r9⟩ := hr
+  obtain ⟨r1, r2, r3, r4, r5, r6, r7, r8, r9, r10⟩ := hr
   have hge : s.c.at_ ≤ (serRecord (serEnvOf cfg d e.id s.c.curLastEventTs s.c) d e args
       { buf := s.buf, at_ := s.c.at_, saved := s.c.saved, stores := [], oob := false, leaves := [] }).at_ := by
     have hle := recordEndN_ge A d e hok args s.c.at_
